@@ -25,6 +25,9 @@ type goHooks struct {
 	onCall   func(g *goProg, a *AbsState, call ssa.CallInstruction)
 	onInstr  func(g *goProg, a *AbsState, in ssa.Instruction)
 	noInline bool // do not analyse callees in place (their results and effects are unknown)
+	// inlineOnly, when set, restricts in-place analysis to the callees it accepts
+	inlineOnly func(g *goProg, a *AbsState, call *ssa.Call, f *ssa.Function) bool
+	onAppend   func(g *goProg, a *AbsState, call *ssa.Call, dst, src sliceAbs)
 }
 
 type goProg struct {
@@ -895,6 +898,9 @@ func (g *goProg) call(a *AbsState, x *ssa.Call, check bool) []*AbsState {
 			if len(x.Call.Args) > 1 && isSliceType(x.Call.Args[1].Type()) {
 				s := g.sliceOf(a, x.Call.Args[1])
 				a.st.eqq(L, d.len.Add(s.len))
+				if check && g.hooks.onAppend != nil {
+					g.hooks.onAppend(g, a, x, d, s)
+				}
 			}
 			C := g.havocR(a, "appcap", qi(0), lenLimit().Add(lenLimit()), true)
 			a.st.leq(L, C)
@@ -1465,6 +1471,9 @@ func inlinable(f *ssa.Function) bool {
 
 func (g *goProg) inlineCall(a *AbsState, x *ssa.Call, f *ssa.Function, check bool) ([]*AbsState, bool) {
 	if f == nil || g.hooks.noInline || x.Call.IsInvoke() || g.depth >= 2 || !inlinable(f) || g.onStack(f) {
+		return nil, false
+	}
+	if g.hooks.inlineOnly != nil && !g.hooks.inlineOnly(g, a, x, f) {
 		return nil, false
 	}
 	if len(x.Call.Args) != len(f.Params) {
